@@ -156,9 +156,9 @@ def r4(ctx):
     for ty in ("auth::SigV4AuthenticatorResponse", "signing_key::GetSigningKeyResponse"):
         for m in ("principal", "session_data"):
             a = ctx.fn("%s::%s" % (ty, m))
-            frs = {fs for _, fs in a.slice([0]).fieldreads}
-            if frs != {(m,)}:
-                yield VIOL("C15-R4", "accessor/%s::%s" % (ty, m), "accessor returns field(s) %s" % sorted(frs), where=loc(a.j["span"]))
+            pr_ = accessor_problems(a, m)
+            if pr_:
+                yield VIOL("C15-R4", "accessor/%s::%s" % (ty, m), "accessor does not hand back self.%s as stored: %s" % (m, "; ".join(pr_)), where=loc(a.j["span"]))
             else:
                 yield PASS("C15-R4", "accessor/%s::%s" % (ty, m), "returns self.%s" % m, [loc(a.j["span"])])
 
@@ -168,3 +168,29 @@ def r5(ctx):
     for r in c12.r4(ctx):
         r.rule = "C15-R5"
         yield r
+
+
+GSK = "auth::SigV4Authenticator::get_signing_key"
+VS = "auth::SigV4Authenticator::validate_signature"
+
+
+@M.rule("C15-R6", "the provider's response travels from the provider to the success value without being edited")
+def r6(ctx):
+    """C15-R4 pins the conversion; this rule pins the way there: get_signing_key's Ok payload is the value the awaited
+    provider future produced, moved; validate_signature's Ok payload is `.into()` of the value its awaited
+    get_signing_key produced, moved (shared borrows - `response.signing_key()` - are not edits; a `session_data.clear()`,
+    a rebuilt response or a principal swapped under some condition is)."""
+    for fn, what in ((GSK, "the provider's response"), (VS, "get_signing_key's response")):
+        b = ctx.co(fn)
+        oks = result_aggs(b, "Ok")
+        ctx.count(max(1, len(oks)))
+        bad = []
+        for ob, i, s_ in oks:
+            ok, why = result_handed_on(b, s_["rv"]["ops"][0], r"future::Future::poll$")
+            if not ok:
+                bad.append((ob, why))
+        key = "response-path/" + fn.split("::")[-1]
+        if bad or not oks:
+            yield VIOL("C15-R6", key, "the success value of %s is not %s as it was produced: %s" % (fn.split("::")[-1], what, bad[0][1] if bad else "no Ok result"), where=b.span_of_block(bad[0][0]) if bad else loc(b.j["span"]))
+        else:
+            yield PASS("C15-R6", key, "Ok payload = the awaited result's Ok value, moved%s" % (" through .into()" if fn == VS else ""), [site(b, oks[0][0], "Ok")])
